@@ -285,6 +285,17 @@ func (w *Writer) fill(n *node, depth int, flat bool) {
 	}
 }
 
+// appendSpaces appends n spaces. The padding of a column can be wider than
+// the spaces constant when a column holds both arrays and maps as the
+// table size is then not the sum of the key and value sizes.
+func appendSpaces(buf []byte, n int) []byte {
+	for len(spaces)-1 < n {
+		buf = append(buf, spaces[1:]...)
+		n -= len(spaces) - 1
+	}
+	return append(buf, spaces[1:n+1]...)
+}
+
 // Return true if not filled.
 func (w *Writer) checkAlign(n *node, start int, comma, cs []byte) bool {
 	c := n.genTables(w.SEN)
@@ -328,11 +339,11 @@ func (w *Writer) alignArray(n *node, t *table, comma, cs []byte) {
 		case strNode:
 			w.buf = append(w.buf, m.buf...)
 			if m.size < cw {
-				w.buf = append(w.buf, spaces[1:cw-m.size+1]...)
+				w.buf = appendSpaces(w.buf, cw-m.size)
 			}
 		case numNode:
 			if m.size < cw {
-				w.buf = append(w.buf, spaces[1:cw-m.size+1]...)
+				w.buf = appendSpaces(w.buf, cw-m.size)
 			}
 			w.buf = append(w.buf, m.buf...)
 		case arrayNode:
@@ -382,7 +393,7 @@ func (w *Writer) alignMap(n *node, t *table, comma, cs []byte) {
 					pad += 2
 				}
 			}
-			w.buf = append(w.buf, spaces[1:pad+1]...)
+			w.buf = appendSpaces(w.buf, pad)
 		} else {
 			prevExist = true
 			w.buf = append(w.buf, k...)
@@ -393,11 +404,11 @@ func (w *Writer) alignMap(n *node, t *table, comma, cs []byte) {
 			case strNode:
 				w.buf = append(w.buf, m.buf...)
 				if m.size < cw {
-					w.buf = append(w.buf, spaces[1:cw-m.size+1]...)
+					w.buf = appendSpaces(w.buf, cw-m.size)
 				}
 			case numNode:
 				if m.size < cw {
-					w.buf = append(w.buf, spaces[1:cw-m.size+1]...)
+					w.buf = appendSpaces(w.buf, cw-m.size)
 				}
 				w.buf = append(w.buf, m.buf...)
 			case arrayNode:
